@@ -267,3 +267,19 @@ func (w *ScriptedPacketWriter) Close() error {
 type PacketOnly struct{ W *ScriptedPacketWriter }
 
 func (p PacketOnly) WritePacket(pk *packet.Packet) (int, error) { return p.W.WritePacket(pk) }
+
+// PacketAndRaw is a packet writer that ALSO has a raw Write method of its own (like a struct that embeds
+// its byte sink). The adapters must still deliver packets through WritePacket; RawWrites counts calls
+// that went to the raw method instead.
+type PacketAndRaw struct {
+	W         *ScriptedPacketWriter
+	RawWrites *int
+}
+
+func (p PacketAndRaw) WritePacket(pk *packet.Packet) (int, error) { return p.W.WritePacket(pk) }
+func (p PacketAndRaw) Write(b []byte) (int, error)                { *p.RawWrites++; return len(b), nil }
+
+// PacketAndRawCloser is the same with a Close method (for IOWriteCloser).
+type PacketAndRawCloser struct{ PacketAndRaw }
+
+func (p PacketAndRawCloser) Close() error { return p.W.Close() }
